@@ -158,13 +158,16 @@ def run_file(item):
     data, _i, layout, ref = G.encode(hist, seed=seed)
     res = {'counters': {'files': 0, 'ops': 0, 'nontrivial': 0, 'gap_files': 0, 'truncated_files': 0},
            'outcomes': {}, 'violations': [], 'samples': []}
-    variants = [(None, data)]
+    variants = [(None, data, False)]
     if truncate and kind not in ('str', 'strb'):
         for c in cuts_for(layout, tier):
-            variants.append((c, data[:c]))
+            variants.append((c, data[:c], False))
+    if kind == 'ts':
+        # the same operations on files read / opened with raw_timestamps=True (TimestampArray / TdmsTimestamp results)
+        variants += [(c, d, True) for c, d, _r in list(variants)]
     gap = F.f4_has_gap(opts)
-    for cut, d in variants:
-        nops, L, bad = check_file(d, F.A, raw_timestamps=False)
+    for cut, d, raw_ts in variants:
+        nops, L, bad = check_file(d, F.A, raw_timestamps=raw_ts)
         res['counters']['files'] += 1
         res['counters']['ops'] += nops
         if L >= 2:
@@ -181,10 +184,10 @@ def run_file(item):
         for (k, mode, op, exp, got) in bad[:6]:
             res['violations'].append({
                 'case': {'kind': kind, 'opts': [list(o) if isinstance(o, tuple) else o for o in opts], 'cut': cut,
-                         'seed': seed, 'op': op, 'mode': mode},
+                         'seed': seed, 'op': op, 'mode': mode, 'raw_ts': raw_ts},
                 'expected': exp, 'observed': got,
                 'signature': {'kind': k, 'mode': mode, 'elem': kind, 'gap_segment_without_channel': gap,
-                              'truncated': cut is not None}})
+                              'truncated': cut is not None, 'raw_ts': raw_ts}})
         if not res['samples'] and L >= 3:
             res['samples'].append({'file': G.describe(hist), 'cut': cut, 'len': L, 'operations': nops})
     return res
@@ -238,7 +241,7 @@ def replay(case):
     data = G.encode(hist, seed=case.get('seed', 0))[0]
     if case.get('cut') is not None:
         data = data[:case['cut']]
-    _n, _L, bad = check_file(data, F.A, max_bad=1000)
+    _n, _L, bad = check_file(data, F.A, raw_timestamps=bool(case.get('raw_ts')), max_bad=1000)
     for (k, mode, op, exp, got) in bad:
         if op == case['op'] and mode == case['mode']:
             return True, exp, got
